@@ -107,8 +107,26 @@ pub fn analyze(on: &Online, budget: u64) -> (Vec<Finding>, HistoryStats) {
             if on.read_phase_start.is_some_and(|s| r.call >= s) {
                 stats.final_reads += 1;
             }
-            // candidate later writes W: acked put, or acked successful CAS, that returned before R.call
-            for w in writes.iter().filter(|w| w.ret.is_some_and(|rt| rt < r.call)) {
+            // every write that could have produced V (or absence) must be definitely before W:
+            // compute once per read the latest return among V's producers
+            let producers: Vec<&&LEntry> = writes
+                .iter()
+                .filter(|x| match (&x.op, v) {
+                    (LOp::Put(val), Some(vv)) => val == vv,
+                    (LOp::Cas { new, .. }, Some(vv)) => new == vv && !matches!(x.res, LRes::Cas(false)),
+                    (LOp::Del, None) => true,
+                    _ => false,
+                })
+                .collect();
+            let initial_absent = v.is_none();
+            if producers.is_empty() && !initial_absent {
+                continue;
+            }
+            // a producer that never returned may take effect at any later time: nothing to conclude
+            let Some(max_prod_ret) = producers.iter().map(|x| x.ret).try_fold(0u64, |m, r| r.map(|r| m.max(r))) else { continue };
+            // candidate later writes W: acked put / delete / successful CAS of a different value
+            // that was invoked after every producer returned and returned before R was invoked
+            for w in writes.iter().filter(|w| w.call > max_prod_ret && w.ret.is_some_and(|rt| rt < r.call)) {
                 let w_val: Option<Option<Vec<u8>>> = match (&w.op, &w.res) {
                     (LOp::Put(val), LRes::Ok) => Some(Some(val.clone())),
                     (LOp::Cas { new, .. }, LRes::Cas(true)) => Some(Some(new.clone())),
@@ -116,41 +134,23 @@ pub fn analyze(on: &Online, budget: u64) -> (Vec<Finding>, HistoryStats) {
                     _ => None,
                 };
                 let Some(w_val) = w_val else { continue };
-                if &w_val == v {
+                if &w_val == v || producers.iter().any(|x| x.id == w.id) {
                     continue;
                 }
-                // every write that could have produced V (or absence) must be definitely before W
-                let producers: Vec<&&LEntry> = writes
-                    .iter()
-                    .filter(|x| x.id != w.id)
-                    .filter(|x| match (&x.op, v) {
-                        (LOp::Put(val), Some(vv)) => val == vv,
-                        (LOp::Cas { new, .. }, Some(vv)) => new == vv && !matches!(x.res, LRes::Cas(false)),
-                        (LOp::Del, None) => true,
-                        _ => false,
-                    })
-                    .collect();
-                let initial_absent = v.is_none();
-                let all_before_w = producers.iter().all(|x| x.ret.is_some_and(|xr| xr < w.call));
-                // any write at all (of any value) that may come after W and before R could
-                // legitimately hide W, but then R would show *that* write's value, which is V's
-                // producer — already covered by `producers`.
-                if all_before_w && (initial_absent || !producers.is_empty()) {
-                    let final_phase = on.read_phase_start.is_some_and(|s| r.call >= s);
-                    findings.push(Finding {
-                        property: "C10",
-                        signature: if final_phase { "acknowledged-write-missing-after-heal".into() } else { "acknowledged-write-missing-in-later-read".into() },
-                        detail: json!({
-                            "key": crate::util::show_bytes(key),
-                            "read_op": r.id, "read_returned": v.as_ref().map(|b| crate::util::show_bytes(b)),
-                            "acknowledged_write_op": w.id, "acknowledged_write": on.ops.get(&w.id).map(|o| op_json(&o.2)),
-                            "write_result": on.results.get(&w.id).map(|x| result_json(&x.0)),
-                            "value_producers": producers.iter().map(|x| x.id).collect::<Vec<_>>(),
-                        }),
-                        t: on.results.get(&r.id).map(|x| x.1).unwrap_or(t_end),
-                    });
-                    break;
-                }
+                let final_phase = on.read_phase_start.is_some_and(|s| r.call >= s);
+                findings.push(Finding {
+                    property: "C10",
+                    signature: if final_phase { "acknowledged-write-missing-after-heal".into() } else { "acknowledged-write-missing-in-later-read".into() },
+                    detail: json!({
+                        "key": crate::util::show_bytes(key),
+                        "read_op": r.id, "read_returned": v.as_ref().map(|b| crate::util::show_bytes(b)),
+                        "acknowledged_write_op": w.id, "acknowledged_write": on.ops.get(&w.id).map(|o| op_json(&o.2)),
+                        "write_result": on.results.get(&w.id).map(|x| result_json(&x.0)),
+                        "value_producers": producers.iter().map(|x| x.id).collect::<Vec<_>>(),
+                    }),
+                    t: on.results.get(&r.id).map(|x| x.1).unwrap_or(t_end),
+                });
+                break;
             }
         }
 
